@@ -26,7 +26,7 @@ from hypothesis import strategies as st
 
 PREC = {"+": 100, "-": 100, "*": 200, "/": 200, "%in%": 200, ":": 300, "^": 500}
 NAMES = ["a", "b", "c", "d", "e"]
-QNAMES = ["a b", "x|y", "u:v", "1z", "a+b", "weird~name", "ü", "(p)"]
+QNAMES = ["a b", "x|y", "a:b", "b:a", "1z", "a+b", "weird~name", "ü", "(p)", "a:b:c"]
 CALLS = [
     ("log(a)", ["a"]),
     ("C(b)", ["b"]),
